@@ -2,7 +2,7 @@ CONSTANTS
   Alphabet = {"a", "b", "", "%2e%2e", "..%2f"}
   Plain = {"a", "b"}
   MaxLen = 2
-  BaseIds = {"none", "root", "base", "nested"}
+  BaseIds = {"none", "root", "base", "nested", "bquery", "nquery"}
   Preserves = {TRUE, FALSE}
   Rels = {"slash"}
   Prefixes = {"/olla/proxy/"}
